@@ -6,7 +6,7 @@ From Coq Require Import QArith ZArith List Bool Arith Qabs.
 From Persim Require Import Model.WassM Model.WassEncM.
 Import ListNotations.
 
-Inductive verdict := Agree | Disagree | SkipCert | SkipGap.
+Inductive verdict := Agree | Disagree | WarnMismatch | SkipCert | SkipGap.
 
 (* tol is absolute; gap is the largest enclosure width that still gives a verdict *)
 Definition check_case (p : positive) (dgm1 dgm2 : list (xpt Q)) (sigma : list nat) (u v : list Q)
@@ -19,6 +19,12 @@ Definition check_case (p : positive) (dgm1 dgm2 : list (xpt Q)) (sigma : list na
       else SkipGap
   end.
 
+(* value and the two "non-finite death" warnings (w_warn of the model = dropped of each input) *)
+Definition check_full (p : positive) (dgm1 dgm2 : list (xpt Q)) (sigma : list nat) (u v : list Q)
+           (impl tol : Q) (w1 w2 : bool) : verdict :=
+  if Bool.eqb (dropped dgm1) w1 && Bool.eqb (dropped dgm2) w2
+  then check_case p dgm1 dgm2 sigma u v impl tol else WarnMismatch.
+
 (* the enclosure itself, for replay files *)
 Definition show_enclosure (p : positive) (dgm1 dgm2 : list (xpt Q)) (sigma : list nat) (u v : list Q)
   : option (Z * positive * (Z * positive)) :=
@@ -30,8 +36,9 @@ Definition show_enclosure (p : positive) (dgm1 dgm2 : list (xpt Q)) (sigma : lis
 (* ---- C06, Wasserstein half: certificate predicate on returned rows (i, j, cost) ------------- *)
 Definition qrow : Type := (Z * Z * Q)%type.
 
+(* x is within tol of every number of the interval c *)
 Definition within (tol : Q) (x : Q) (c : ival) : bool :=
-  Qle_bool (fst c - tol) x && Qle_bool x (snd c + tol).
+  Qle_bool (snd c - tol) x && Qle_bool x (fst c + tol).
 
 Definition idx_ok (n : nat) (z : Z) : bool := (z =? -1)%Z || ((0 <=? z)%Z && (z <? Z.of_nat n)%Z).
 
@@ -56,4 +63,4 @@ Definition cert_case (p : positive) (dgm1 dgm2 : list (xpt Q)) (dist : Q) (rows 
   covers_once (length S) (map (fun r => fst (fst r)) rows) &&
   covers_once (length T) (map (fun r => snd (fst r)) rows) &&
   forallb (row_cost_ok p S T tol) rows &&
-  Qle_bool (Qabs (qsum (map snd rows) - dist)) tol.
+  Qle_bool (dist - tol) (qsum (map snd rows)) && Qle_bool (qsum (map snd rows)) (dist + tol).
